@@ -136,7 +136,7 @@ def clipUpdate (st : ClipState K) (near far : K) (flip : Bool) (i : Fin 3) : Opt
   if st2.tmax < st2.tmin then none else some st2
 
 /-- loop body of `clip_aabb_line` for axis `i`; `none` = `return None` -/
-def clipStep (b : Aabb3 K) (o d : V3 K) (st : ClipState K) (i : Fin 3) : Option (ClipState K) :=
+def clipStepC (b : Aabb3 K) (o d : V3 K) (st : ClipState K) (i : Fin 3) : Option (ClipState K) :=
   if neq (d.get i.val) 0 then
     if o.get i.val < b.mins.get i.val || b.maxs.get i.val < o.get i.val then none else some st
   else
@@ -153,7 +153,7 @@ def clipInit : ClipState K :=
 
 /-- the three loop iterations -/
 def clipLoop (b : Aabb3 K) (o d : V3 K) : Option (ClipState K) :=
-  (((some clipInit).bind fun s => clipStep b o d s 0).bind fun s => clipStep b o d s 1).bind fun s => clipStep b o d s 2
+  (((some clipInit).bind fun s => clipStepC b o d s 0).bind fun s => clipStepC b o d s 1).bind fun s => clipStepC b o d s 2
 
 /-- `-dir.normalize()` -/
 def negNormalize (d : V3 K) : V3 K := (d.sdiv d.norm).neg
@@ -167,7 +167,7 @@ def sideNormal (side : Int) (sgnNeg : K) : V3 K :=
   else V3.zero
 
 /-- `clip_aabb_line(aabb, origin, dir)`: `((tmin, near_normal, near_side), (tmax, far_normal, far_side))` -/
-def clipAabbLine (b : Aabb3 K) (o d : V3 K) : Option ((K Ã— V3 K Ã— Int) Ã— (K Ã— V3 K Ã— Int)) :=
+def clipAabbLineC (b : Aabb3 K) (o d : V3 K) : Option ((K Ã— V3 K Ã— Int) Ã— (K Ã— V3 K Ã— Int)) :=
   match clipLoop b o d with
   | none => none
   | some st =>
@@ -177,7 +177,7 @@ def clipAabbLine (b : Aabb3 K) (o d : V3 K) : Option ((K Ã— V3 K Ã— Int) Ã— (K Ã
 
 /-- `Aabb::clip_line_parameters` -/
 def clipLineParameters (b : Aabb3 K) (o d : V3 K) : Option (K Ã— K) :=
-  (clipAabbLine b o d).map fun c => (c.1.1, c.2.1)
+  (clipAabbLineC b o d).map fun c => (c.1.1, c.2.1)
 
 /-- `Aabb::clip_ray_parameters` -/
 def clipRayParameters (b : Aabb3 K) (o d : V3 K) : Option (K Ã— K) :=
@@ -189,7 +189,7 @@ supporting line meets the box beyond `pb` (`tmin > 1`) yields `Some` of a revers
 the corrected code returns `None` when `max(tmin,0) > min(tmax,1)`. -/
 def clipSegment (b : Aabb3 K) (pa pb : V3 K) : Option (Segment3 K) :=
   let ab := pb.sub pa
-  (clipAabbLine b pa ab).bind fun c =>
+  (clipAabbLineC b pa ab).bind fun c =>
     let t0 := nmax c.1.1 0
     let t1 := nmin c.2.1 1
     if t1 < t0 then none else some âŸ¨pa.add (ab.smul t0), pa.add (ab.smul t1)âŸ©
